@@ -431,6 +431,23 @@ impl Context {
 
             // after emitting, re-check the task state
             if task.state().is_error() {
+                // no catch of this task took the error: what is still open beneath it is closed with it.
+                // Once a catch further up has taken the error nothing would ever come back to these tasks
+                for t in self.proc.tasks().iter() {
+                    if t.state().is_completed() || t.id == task.id {
+                        continue;
+                    }
+                    let mut up = t.parent();
+                    while let Some(p) = up {
+                        if p.id == task.id {
+                            t.set_state(TaskState::Skipped);
+                            self.emit_task(t)?;
+                            break;
+                        }
+                        up = p.parent();
+                    }
+                }
+
                 if let Some(err) = task.err() {
                     if let Some(parent) = task.parent() {
                         // an error does not reopen or rewrite a parent that has already ended
